@@ -363,6 +363,24 @@ def check_case(case):
                 fails.append(f"{kind} data differs between arrow and {rt}")
         if any(not np.array_equal(np.asarray(again[c]), np.asarray(tabs[kind, "arrow"][c])) for c in again):
             fails.append(f"{kind} data not reproducible for the same seed")
+    # a returned frame belongs to the caller: modifying it must not change what the next call with the same seed returns
+    for kind, fn in (("users", tt.make_users_data), ("sessions", tt.make_sessions_data)):
+        first = fn(return_type="pandas", seed=mk_seed(), **kw0)
+        keep = first.copy(deep=True)
+        first["revenue"] = -1.0
+        first.drop(index=first.index[:3], inplace=True)
+        again_pd = fn(return_type="pandas", seed=mk_seed(), **kw0)
+        if again_pd is first or not again_pd.equals(keep):
+            fails.append(f"{kind} data: a later call with the same seed returns a frame the caller modified (shared object)")
+        pl1 = fn(return_type="polars", seed=mk_seed(), **kw0)
+        keep_pl = pl1.clone()
+        try:
+            pl1.replace_column(pl1.get_column_index("revenue"), (pl1["revenue"] * 0 - 1).alias("revenue"))
+        except Exception:  # noqa: BLE001
+            pass
+        pl2 = fn(return_type="polars", seed=mk_seed(), **kw0)
+        if not pl2.equals(keep_pl):
+            fails.append(f"{kind} data (polars): a later call with the same seed returns a frame the caller modified")
     if shared.n_children_spawned != 0:
         fails.append("the caller's SeedSequence was consumed (children spawned) by the generator")
     kw = dict(seed=case["seed"], **kw0)
